@@ -256,7 +256,7 @@ func featuresMatch(k *knownFinding, c *Case) bool {
 func matchKnown(known []knownFinding, f Failure, c *Case) *knownFinding {
 	for i := range known {
 		k := &known[i]
-		if k.Status == "open" && k.Neutralise == "" && k.Property == f.Property && k.Clause == f.Clause && sigMatches(k.Sig, f.Sig) && featuresMatch(k, c) {
+		if k.Status == "open" && k.Neutralise == "" && k.Property == f.Property && (k.Clause == "*" || k.Clause == f.Clause) && sigMatches(k.Sig, f.Sig) && featuresMatch(k, c) {
 			return k
 		}
 	}
